@@ -167,17 +167,16 @@ func mergeNetworks(c any, o any, path tree.Path) (any, error) {
 func mergeExtraHosts(c any, o any, _ tree.Path) (any, error) {
 	right := convertIntoSequence(c)
 	left := convertIntoSequence(o)
-	// Rewrite content of left slice to remove duplicate elements
-	i := 0
+	// keep only the elements of left that are not already in right; the override's own slice must not be
+	// rewritten in place: the same override can be merged again (a service extended through another file
+	// is resolved once per visit), and a compacted slice with a stale tail then yields duplicates
+	var kept []any
 	for _, v := range left {
 		if !slices.Contains(right, v) {
-			left[i] = v
-			i++
+			kept = append(kept, v)
 		}
 	}
-	// keep only not duplicated elements from left slice
-	left = left[:i]
-	return append(right, left...), nil
+	return append(right, kept...), nil
 }
 
 func mergeToSequence(c any, o any, _ tree.Path) (any, error) {
